@@ -267,6 +267,7 @@ pub fn scenario(r: &mut Report, seed: u64) {
         let d = reader.dht.clone();
         let t = Id::from(tr.imm_target);
         let h = std::thread::spawn(move || d.get_immutable(t));
+        super::net::wait_until_call_registered(&w, &reader, || 1, || h.is_finished());
         w.run_until(bound, |_| h.is_finished());
         if h.is_finished() { h.join().ok() } else { None }
     } else {
